@@ -1,3 +1,771 @@
-use vh::runner::Ctx;
+//! C12 — no operation leaks, double-closes or steals a descriptor, on success or failure.
+//!
+//! Each scenario is a closure over the public API. A dry run records its syscall sequence
+//! through the `sc` interposer; then, for every index j of that sequence, call j is forced to
+//! fail (without executing) with each errno of the call's plausible set. The descriptor table
+//! (`/proc/self/fd`: number, link target, device/inode identity) is compared before the
+//! operation, after it (must differ by exactly the descriptors owned by the returned value)
+//! and after dropping the value (must be identical to before). The syscall log is checked for
+//! closes of descriptors the operation did not create and for double closes.
+use std::any::Any;
+use std::collections::BTreeMap;
+use std::os::unix::ffi::OsStrExt;
 
-pub fn run(_ctx: &Ctx) {}
+use rusl::platform::{Fd, OpenFlags};
+use rusl::string::unix_str::UnixString;
+use serde::{Deserialize, Serialize};
+use tiny_std::fs::{Directory, File, OpenOptions};
+use tiny_std::io::Read;
+use tiny_std::net::{Ip, SocketAddress, TcpListener, TcpStream, TcpTryConnect, UnixListener, UnixStream};
+use tiny_std::process::{Command, Stdio};
+use tiny_std::unix::fd::AsRawFd;
+
+use sc::verif::{Action, Rule};
+use vh::runner::{catch, CaseReport, CaseResult, Ctx, Failure};
+use vh::{ensure, fail};
+
+#[derive(Debug, Clone, Serialize, Deserialize)]
+pub struct FdCase {
+    pub scenario: String,
+    /// None = no fault; Some((j, errno)) = the j-th syscall of the operation fails with errno
+    pub fault: Option<(u32, i32)>,
+    /// child-side fault for spawn scenarios: (syscall name, nth, errno)
+    pub child_fault: Option<(String, u32, i32)>,
+}
+
+/// What an operation hands to its caller: the raw descriptors it claims to own, and a value
+/// whose drop must release them (for raw `Fd`s the harness closes them itself).
+pub struct Held {
+    pub owned: Vec<i32>,
+    pub keep: Box<dyn Any>,
+    pub close_raw: Vec<i32>,
+}
+
+impl Held {
+    fn none() -> Held {
+        Held { owned: vec![], keep: Box::new(()), close_raw: vec![] }
+    }
+    fn of<T: Any>(owned: Vec<i32>, v: T) -> Held {
+        Held { owned, keep: Box::new(v), close_raw: vec![] }
+    }
+    fn raw(fds: Vec<i32>) -> Held {
+        Held { owned: fds.clone(), keep: Box::new(()), close_raw: fds }
+    }
+}
+
+pub struct Env {
+    pub root: std::path::PathBuf,
+    pub unix_listener_path: Vec<u8>,
+    pub unix_listener_fd: i32,
+    pub tcp_listener: std::net::TcpListener,
+    pub tcp_port: u16,
+    pub helper: Vec<u8>,
+}
+
+fn us(b: &[u8]) -> UnixString {
+    UnixString::try_from_bytes(b).unwrap()
+}
+
+fn p(env: &Env, name: &str) -> UnixString {
+    us(env.root.join(name).as_os_str().as_bytes())
+}
+
+type Op = fn(&Env) -> Held;
+
+fn fd_of<T: AsRawFd>(t: &T) -> i32 {
+    t.as_raw_fd().value()
+}
+
+macro_rules! ok_or_none {
+    ($e:expr) => {
+        match $e {
+            Ok(v) => v,
+            Err(_) => return Held::none(),
+        }
+    };
+}
+
+pub fn scenarios() -> Vec<(&'static str, Op)> {
+    vec![
+        ("File::open existing", |e| {
+            let f = ok_or_none!(File::open(&p(e, "file.txt")));
+            Held::of(vec![fd_of(&f)], f)
+        }),
+        ("File::open missing", |e| {
+            let f = ok_or_none!(File::open(&p(e, "missing.txt")));
+            Held::of(vec![fd_of(&f)], f)
+        }),
+        ("OpenOptions create+write+truncate", |e| {
+            let f = ok_or_none!(OpenOptions::new().write(true).create(true).truncate(true).open(&p(e, "new.txt")));
+            Held::of(vec![fd_of(&f)], f)
+        }),
+        ("OpenOptions append+read", |e| {
+            let f = ok_or_none!(OpenOptions::new().append(true).read(true).open(&p(e, "file.txt")));
+            Held::of(vec![fd_of(&f)], f)
+        }),
+        ("OpenOptions create_new on existing", |e| {
+            let f = ok_or_none!(OpenOptions::new().write(true).create_new(true).open(&p(e, "file.txt")));
+            Held::of(vec![fd_of(&f)], f)
+        }),
+        ("OpenOptions bad (no access mode)", |e| {
+            let f = ok_or_none!(OpenOptions::new().open(&p(e, "file.txt")));
+            Held::of(vec![fd_of(&f)], f)
+        }),
+        ("fs::read", |e| {
+            let _ = tiny_std::fs::read(&p(e, "file.txt"));
+            Held::none()
+        }),
+        ("fs::read_to_string", |e| {
+            let _ = tiny_std::fs::read_to_string(&p(e, "file.txt"));
+            Held::none()
+        }),
+        ("fs::read_to_string invalid utf8", |e| {
+            let _ = tiny_std::fs::read_to_string(&p(e, "binary.bin"));
+            Held::none()
+        }),
+        ("fs::write", |e| {
+            let _ = tiny_std::fs::write(&p(e, "written.txt"), b"hello world");
+            Held::none()
+        }),
+        ("fs::copy_file", |e| {
+            let f = ok_or_none!(tiny_std::fs::copy_file(&p(e, "big.bin"), &p(e, "copy.bin")));
+            Held::of(vec![fd_of(&f)], f)
+        }),
+        ("fs::copy_file missing source", |e| {
+            let f = ok_or_none!(tiny_std::fs::copy_file(&p(e, "missing.txt"), &p(e, "copy2.bin")));
+            Held::of(vec![fd_of(&f)], f)
+        }),
+        ("fs::copy_file into missing dir", |e| {
+            let f = ok_or_none!(tiny_std::fs::copy_file(&p(e, "file.txt"), &p(e, "nodir/copy.bin")));
+            Held::of(vec![fd_of(&f)], f)
+        }),
+        ("fs::metadata+exists", |e| {
+            let _ = tiny_std::fs::metadata(&p(e, "file.txt"));
+            let _ = tiny_std::fs::exists(&p(e, "missing.txt"));
+            Held::none()
+        }),
+        ("Directory::open + iterate", |e| {
+            let d = ok_or_none!(Directory::open(&p(e, "dir")));
+            for ent in d.read() {
+                if ent.is_err() {
+                    break;
+                }
+            }
+            Held::of(vec![fd_of_dir(&d)], d)
+        }),
+        ("DirEntry::open_file/open_dir", |e| {
+            let d = ok_or_none!(Directory::open(&p(e, "dir")));
+            let mut owned = vec![fd_of_dir(&d)];
+            let mut keep: Vec<Box<dyn Any>> = Vec::new();
+            for ent in d.read() {
+                let Ok(ent) = ent else { break };
+                if ent.is_relative_reference() {
+                    continue;
+                }
+                if let Ok(f) = ent.open_file() {
+                    owned.push(fd_of(&f));
+                    keep.push(Box::new(f));
+                }
+                if let Ok(sub) = ent.open_dir() {
+                    owned.push(fd_of_dir(&sub));
+                    keep.push(Box::new(sub));
+                }
+            }
+            Held::of(owned, (keep, d))
+        }),
+        ("fs::remove_dir_all", |e| {
+            let _ = tiny_std::fs::remove_dir_all(&p(e, "victim"));
+            Held::none()
+        }),
+        ("fs::create_dir_all", |e| {
+            let _ = tiny_std::fs::create_dir_all(&p(e, "a/b/c/d"));
+            Held::none()
+        }),
+        ("UnixStream::connect", |e| {
+            let s = ok_or_none!(UnixStream::connect(&us(&e.unix_listener_path)));
+            Held::of(vec![fd_of(&s)], s)
+        }),
+        ("UnixStream::connect missing path", |e| {
+            let s = ok_or_none!(UnixStream::connect(&p(e, "no.sock")));
+            Held::of(vec![fd_of(&s)], s)
+        }),
+        ("UnixStream::connect over-long path", |e| {
+            let long = e.root.join("x".repeat(150));
+            let s = ok_or_none!(UnixStream::connect(&us(long.as_os_str().as_bytes())));
+            Held::of(vec![fd_of(&s)], s)
+        }),
+        ("UnixStream::try_connect", |e| {
+            match ok_or_none!(UnixStream::try_connect(&us(&e.unix_listener_path))) {
+                Some(s) => Held::of(vec![fd_of(&s)], s),
+                None => Held::none(),
+            }
+        }),
+        ("UnixStream::try_connect over-long path", |e| {
+            let long = e.root.join("y".repeat(150));
+            match ok_or_none!(UnixStream::try_connect(&us(long.as_os_str().as_bytes()))) {
+                Some(s) => Held::of(vec![fd_of(&s)], s),
+                None => Held::none(),
+            }
+        }),
+        ("UnixListener::bind", |e| {
+            let l = ok_or_none!(UnixListener::bind(&p(e, "bound.sock")));
+            Held::of(vec![fd_of_ul(&l)], l)
+        }),
+        ("UnixListener::bind over-long path", |e| {
+            let long = e.root.join("z".repeat(150));
+            let l = ok_or_none!(UnixListener::bind(&us(long.as_os_str().as_bytes())));
+            Held::of(vec![fd_of_ul(&l)], l)
+        }),
+        ("UnixListener::bind non-ascii path", |e| {
+            let l = ok_or_none!(UnixListener::bind(&us(e.root.join("s\u{e9}\u{20ac}.sock").as_os_str().as_bytes())));
+            Held::of(vec![fd_of_ul(&l)], l)
+        }),
+        ("UnixListener accept variants", |e| {
+            let mut l = ok_or_none!(UnixListener::bind(&p(e, "acc.sock")));
+            let mut owned = vec![fd_of_ul(&l)];
+            let mut keep: Vec<Box<dyn Any>> = Vec::new();
+            // two pending connections made by the harness through std
+            let c1 = std::os::unix::net::UnixStream::connect(e.root.join("acc.sock"));
+            let c2 = std::os::unix::net::UnixStream::connect(e.root.join("acc.sock"));
+            if let Ok(s) = l.accept() {
+                owned.push(fd_of(&s));
+                keep.push(Box::new(s));
+            }
+            if let Ok(Some(s)) = l.try_accept() {
+                owned.push(fd_of(&s));
+                keep.push(Box::new(s));
+            }
+            // nothing pending: try_accept -> None, timed accept -> Timeout
+            let _ = l.try_accept();
+            let _ = l.accept_with_timeout(core::time::Duration::from_millis(2));
+            drop((c1, c2));
+            Held::of(owned, (keep, l))
+        }),
+        ("TcpListener::bind + accept variants", |_e| {
+            let mut l = ok_or_none!(TcpListener::bind(&SocketAddress::new(Ip::V4([127, 0, 0, 1]), 0)));
+            let mut owned = vec![fd_of_tl(&l)];
+            let mut keep: Vec<Box<dyn Any>> = Vec::new();
+            if let Ok(addr) = l.local_addr() {
+                let port = port_of(&addr);
+                let c1 = std::net::TcpStream::connect(("127.0.0.1", port));
+                let c2 = std::net::TcpStream::connect(("127.0.0.1", port));
+                if let Ok(s) = l.accept() {
+                    owned.push(fd_of(&s));
+                    keep.push(Box::new(s));
+                }
+                if let Ok(Some(s)) = l.try_accept() {
+                    owned.push(fd_of(&s));
+                    keep.push(Box::new(s));
+                }
+                let _ = l.try_accept();
+                let _ = l.accept_with_timeout(core::time::Duration::from_millis(2));
+                drop((c1, c2));
+            }
+            Held::of(owned, (keep, l))
+        }),
+        ("TcpStream::connect", |e| {
+            let s = ok_or_none!(TcpStream::connect(&SocketAddress::new(Ip::V4([127, 0, 0, 1]), e.tcp_port)));
+            Held::of(vec![fd_of(&s)], s)
+        }),
+        ("TcpStream::connect refused", |_e| {
+            let s = ok_or_none!(TcpStream::connect(&SocketAddress::new(Ip::V4([127, 0, 0, 1]), 1)));
+            Held::of(vec![fd_of(&s)], s)
+        }),
+        ("TcpStream::connect_with_timeout", |e| {
+            let s = ok_or_none!(TcpStream::connect_with_timeout(&SocketAddress::new(Ip::V4([127, 0, 0, 1]), e.tcp_port), core::time::Duration::from_millis(50)));
+            Held::of(vec![fd_of(&s)], s)
+        }),
+        ("TcpStream::try_connect + progress", |e| {
+            match ok_or_none!(TcpStream::try_connect(&SocketAddress::new(Ip::V4([127, 0, 0, 1]), e.tcp_port))) {
+                TcpTryConnect::Connected(s) => Held::of(vec![fd_of(&s)], s),
+                TcpTryConnect::InProgress(p) => match p.try_connect() {
+                    Ok(TcpTryConnect::Connected(s)) => Held::of(vec![fd_of(&s)], s),
+                    Ok(TcpTryConnect::InProgress(p2)) => match p2.connect_blocking() {
+                        Ok(s) => Held::of(vec![fd_of(&s)], s),
+                        Err(_) => Held::none(),
+                    },
+                    Err(_) => Held::none(),
+                },
+            }
+        }),
+        ("Command::spawn inherit + wait", |e| spawn_scn(e, [0, 0, 0])),
+        ("Command::spawn null,pipe,pipe + wait", |e| spawn_scn(e, [2, 3, 3])),
+        ("Command::spawn pipe,null,rawfd + wait", |e| spawn_scn(e, [3, 2, 4])),
+        ("Command::spawn missing binary", |e| {
+            let bin = p(e, "no-such-bin");
+            let mut c = ok_or_none!(Command::new(&bin));
+            c.stdout(Stdio::MakePipe);
+            match c.spawn() {
+                Ok(mut ch) => {
+                    let _ = ch.wait();
+                    let owned = child_fds(&ch);
+                    Held::of(owned, ch)
+                }
+                Err(_) => Held::none(),
+            }
+        }),
+        ("EpollDriver::create", |_e| {
+            let d = ok_or_none!(tiny_std::linux::epoll::EpollDriver::create(true));
+            // the epoll fd is private: identify it as "the one new descriptor"
+            Held::of(vec![-1], d)
+        }),
+        ("getpwuid_r", |_e| {
+            let mut buf = [0u8; 256];
+            let _ = tiny_std::unix::passwd::getpw_r::getpwuid_r(0, &mut buf);
+            let mut small = [0u8; 24];
+            let _ = tiny_std::unix::passwd::getpw_r::getpwuid_r(65_534, &mut small);
+            Held::none()
+        }),
+        ("openpty", |_e| {
+            let h = ok_or_none!(tiny_std::unix::misc::openpty::openpty(None, None, None));
+            Held::raw(vec![h.master.value(), h.slave.value()])
+        }),
+        ("system_random", |_e| {
+            let mut b = [0u8; 16];
+            let _ = tiny_std::unix::random::system_random(&mut b);
+            Held::none()
+        }),
+        ("setup_io_uring + drop", |_e| {
+            let r = ok_or_none!(rusl::io_uring::setup_io_uring(4, rusl::platform::IoUringParamFlags::empty(), 0, 0));
+            let fd = r.fd.value();
+            Held::of(vec![fd], r)
+        }),
+        ("pipe/pipe2", |_e| {
+            let a = ok_or_none!(rusl::unistd::pipe());
+            let b = match rusl::unistd::pipe2(OpenFlags::O_CLOEXEC) {
+                Ok(b) => b,
+                Err(_) => return Held::raw(vec![a.in_pipe.value(), a.out_pipe.value()]),
+            };
+            Held::raw(vec![a.in_pipe.value(), a.out_pipe.value(), b.in_pipe.value(), b.out_pipe.value()])
+        }),
+        ("host_name", |_e| {
+            let _ = tiny_std::unix::host_name::host_name();
+            Held::none()
+        }),
+    ]
+}
+
+fn fd_of_dir(d: &Directory) -> i32 {
+    // Directory has no AsRawFd: it is a transparent wrapper around its OwnedFd
+    unsafe { *(d as *const Directory as *const i32) }
+}
+fn fd_of_ul(l: &UnixListener) -> i32 {
+    unsafe { *(l as *const UnixListener as *const i32) }
+}
+fn fd_of_tl(l: &TcpListener) -> i32 {
+    unsafe { *(l as *const TcpListener as *const i32) }
+}
+fn port_of(a: &SocketAddress) -> u16 {
+    // SocketAddress { ip: Ip (V4([u8;4])), port: u16 } has no getter: parse its Debug output
+    let s = format!("{a:?}");
+    s.rsplit("port: ").next().and_then(|t| t.trim_end_matches([' ', '}']).parse().ok()).unwrap_or(0)
+}
+
+fn child_fds(ch: &tiny_std::process::Child) -> Vec<i32> {
+    let mut v = Vec::new();
+    if let Some(p) = &ch.stdin {
+        v.push(p.borrow_fd().as_raw_fd().value());
+    }
+    if let Some(p) = &ch.stdout {
+        v.push(p.borrow_fd().as_raw_fd().value());
+    }
+    if let Some(p) = &ch.stderr {
+        v.push(p.borrow_fd().as_raw_fd().value());
+    }
+    v
+}
+
+fn spawn_scn(e: &Env, stdio: [u8; 3]) -> Held {
+    let bin = us(&e.helper);
+    let dump = p(e, "dump.json");
+    let mut c = ok_or_none!(Command::new(&bin));
+    let zero = us(b"0");
+    let flags = us(if stdio[0] >= 2 { b"-i" } else { b"-" });
+    c.arg(&dump).arg(&zero).arg(&flags);
+    let mut rawfd = None;
+    let mk = |m: u8, rawfd: &mut Option<i32>| match m {
+        2 => Some(Stdio::Null),
+        3 => Some(Stdio::MakePipe),
+        4 => {
+            let path = std::ffi::CString::new(e.root.join("rawout").as_os_str().as_bytes()).unwrap();
+            let fd = unsafe { libc::open(path.as_ptr(), libc::O_CREAT | libc::O_RDWR | libc::O_CLOEXEC, 0o644) };
+            *rawfd = Some(fd);
+            Some(Stdio::RawFd(Fd::try_new(fd).unwrap()))
+        }
+        _ => None,
+    };
+    if let Some(s) = mk(stdio[0], &mut rawfd) {
+        c.stdin(s);
+    }
+    if let Some(s) = mk(stdio[1], &mut rawfd) {
+        c.stdout(s);
+    }
+    if let Some(s) = mk(stdio[2], &mut rawfd) {
+        c.stderr(s);
+    }
+    let r = c.spawn();
+    // ownership of a RawFd stream is undocumented: whoever did not close it, the harness does
+    // (before the snapshot), so it never counts as a leak of the operation
+    if let Some(fd) = rawfd {
+        if unsafe { libc::fcntl(fd, libc::F_GETFD) } >= 0 {
+            unsafe { libc::close(fd) };
+        }
+    }
+    match r {
+        Ok(mut ch) => {
+            drop(ch.stdin.take());
+            let mut sink = Vec::new();
+            if let Some(o) = ch.stdout.as_mut() {
+                let _ = o.read_to_end(&mut sink);
+            }
+            let _ = ch.wait();
+            let owned = child_fds(&ch);
+            Held::of(owned, ch)
+        }
+        Err(_) => Held::none(),
+    }
+}
+
+// ------------------------------------------------------------------------------------------
+// descriptor table snapshots
+// ------------------------------------------------------------------------------------------
+
+#[derive(Debug, Clone, PartialEq, Eq)]
+pub struct FdInfo {
+    pub link: Vec<u8>,
+    pub dev: u64,
+    pub ino: u64,
+}
+
+pub fn snapshot() -> BTreeMap<i32, FdInfo> {
+    let mut m = BTreeMap::new();
+    unsafe {
+        let d = libc::opendir(c"/proc/self/fd".as_ptr());
+        if d.is_null() {
+            return m;
+        }
+        let dfd = libc::dirfd(d);
+        loop {
+            let e = libc::readdir(d);
+            if e.is_null() {
+                break;
+            }
+            let name = std::ffi::CStr::from_ptr((*e).d_name.as_ptr());
+            let Ok(n) = name.to_string_lossy().parse::<i32>() else { continue };
+            if n == dfd {
+                continue;
+            }
+            let mut st: libc::stat = core::mem::zeroed();
+            if libc::fstat(n, &mut st) != 0 {
+                continue;
+            }
+            let mut buf = [0u8; 512];
+            let path = std::ffi::CString::new(format!("/proc/self/fd/{n}")).unwrap();
+            let l = libc::readlink(path.as_ptr(), buf.as_mut_ptr().cast(), buf.len());
+            let link = if l > 0 { buf[..l as usize].to_vec() } else { vec![] };
+            m.insert(n, FdInfo { link, dev: st.st_dev, ino: st.st_ino });
+        }
+        libc::closedir(d);
+    }
+    m
+}
+
+fn describe(m: &BTreeMap<i32, FdInfo>, fds: &[i32]) -> String {
+    fds.iter().map(|f| format!("{f}->{}", m.get(f).map(|i| String::from_utf8_lossy(&i.link).to_string()).unwrap_or_else(|| "?".into()))).collect::<Vec<_>>().join(", ")
+}
+
+// ------------------------------------------------------------------------------------------
+// environment
+// ------------------------------------------------------------------------------------------
+
+pub fn make_env(ctx: &Ctx) -> Env {
+    let root = std::path::PathBuf::from(format!("/tmp/verif-c12-{}-{}", std::process::id(), ctx.worker));
+    let _ = std::fs::remove_dir_all(&root);
+    std::fs::create_dir_all(&root).unwrap();
+    let lp = root.join("listen.sock");
+    let c = std::ffi::CString::new(lp.as_os_str().as_bytes()).unwrap();
+    let fd = unsafe {
+        let fd = libc::socket(libc::AF_UNIX, libc::SOCK_STREAM | libc::SOCK_CLOEXEC, 0);
+        let mut addr: libc::sockaddr_un = core::mem::zeroed();
+        addr.sun_family = libc::AF_UNIX as u16;
+        for (i, b) in c.as_bytes().iter().enumerate() {
+            addr.sun_path[i] = *b as i8;
+        }
+        libc::bind(fd, core::ptr::addr_of!(addr).cast(), core::mem::size_of::<libc::sockaddr_un>() as u32);
+        libc::listen(fd, 4096);
+        // non-blocking so that draining the backlog in reset_files never waits
+        let fl = libc::fcntl(fd, libc::F_GETFL);
+        libc::fcntl(fd, libc::F_SETFL, fl | libc::O_NONBLOCK);
+        fd
+    };
+    let tcp = std::net::TcpListener::bind("127.0.0.1:0").unwrap();
+    let port = tcp.local_addr().unwrap().port();
+    let helper = std::env::current_exe().unwrap().parent().unwrap().join("dumpenv");
+    Env { root: root.clone(), unix_listener_path: lp.as_os_str().as_bytes().to_vec(), unix_listener_fd: fd, tcp_listener: tcp, tcp_port: port, helper: helper.as_os_str().as_bytes().to_vec() }
+}
+
+/// (Re)create the files every scenario expects; called before each run of an operation.
+pub fn reset_files(e: &Env) {
+    let r = &e.root;
+    let _ = std::fs::write(r.join("file.txt"), b"some text\nmore text\n");
+    let _ = std::fs::write(r.join("binary.bin"), [0xffu8, 0xfe, 0x00, 0x80]);
+    let _ = std::fs::write(r.join("big.bin"), vec![7u8; 300_000]);
+    for f in ["new.txt", "written.txt", "copy.bin", "copy2.bin", "bound.sock", "acc.sock", "dump.json", "rawout", "s\u{e9}\u{20ac}.sock"] {
+        let _ = std::fs::remove_file(r.join(f));
+    }
+    let _ = std::fs::remove_dir_all(r.join("a"));
+    let _ = std::fs::create_dir_all(r.join("dir/sub"));
+    let _ = std::fs::write(r.join("dir/f1"), b"1");
+    let _ = std::fs::write(r.join("dir/f2"), b"2");
+    let _ = std::fs::create_dir_all(r.join("victim/x/y"));
+    let _ = std::fs::write(r.join("victim/x/f"), b"1");
+    let _ = std::fs::write(r.join("victim/g"), b"1");
+    // drain connections queued at the harness listeners so their backlogs never fill
+    unsafe {
+        loop {
+            let c = libc::accept4(e.unix_listener_fd, core::ptr::null_mut(), core::ptr::null_mut(), libc::SOCK_NONBLOCK | libc::SOCK_CLOEXEC);
+            if c < 0 {
+                break;
+            }
+            libc::close(c);
+        }
+    }
+    let _ = e.tcp_listener.set_nonblocking(true);
+    while let Ok((s, _)) = e.tcp_listener.accept() {
+        drop(s);
+    }
+}
+
+pub fn plausible_errnos(nr: usize) -> &'static [i32] {
+    use libc::*;
+    match nr {
+        n if n == sc::nr::OPEN || n == sc::nr::OPENAT => &[EMFILE, ENFILE, ENOMEM, EACCES, ENOENT, EINTR],
+        n if n == sc::nr::SOCKET => &[EMFILE, ENFILE, ENOMEM, ENOBUFS, EACCES],
+        n if n == sc::nr::CONNECT => &[ECONNREFUSED, EACCES, ENOENT, EINTR, ETIMEDOUT],
+        n if n == sc::nr::BIND => &[EADDRINUSE, EACCES, ENOENT, ENOMEM],
+        n if n == sc::nr::LISTEN => &[EADDRINUSE, EOPNOTSUPP],
+        n if n == sc::nr::ACCEPT || n == sc::nr::ACCEPT4 => &[EMFILE, ENFILE, ENOMEM, ECONNABORTED, EINTR],
+        n if n == sc::nr::PIPE2 || n == sc::nr::PIPE => &[EMFILE, ENFILE],
+        n if n == sc::nr::FORK || n == sc::nr::CLONE => &[EAGAIN, ENOMEM],
+        n if n == sc::nr::READ || n == sc::nr::READV => &[EIO, EINTR, EBADF],
+        n if n == sc::nr::WRITE || n == sc::nr::WRITEV => &[EIO, ENOSPC, EINTR, EPIPE],
+        n if n == sc::nr::FSTAT || n == sc::nr::STAT || n == sc::nr::NEWFSTATAT || n == sc::nr::STATX => &[ENOMEM, EIO, EACCES],
+        n if n == sc::nr::COPY_FILE_RANGE => &[EIO, ENOSPC, EXDEV, EINVAL, ENOMEM],
+        n if n == sc::nr::GETDENTS64 => &[EIO, ENOMEM, EINTR],
+        n if n == sc::nr::UNLINKAT || n == sc::nr::UNLINK || n == sc::nr::RMDIR => &[EACCES, EBUSY, EIO, ENOTEMPTY],
+        n if n == sc::nr::MKDIR || n == sc::nr::MKDIRAT => &[EACCES, ENOSPC, EIO],
+        n if n == sc::nr::PPOLL || n == sc::nr::POLL => &[EINTR, ENOMEM],
+        n if n == sc::nr::IOCTL => &[EIO, ENOTTY, EINVAL],
+        n if n == sc::nr::EPOLL_CREATE1 || n == sc::nr::EPOLL_CREATE => &[EMFILE, ENFILE, ENOMEM],
+        n if n == sc::nr::IO_URING_SETUP => &[EMFILE, ENFILE, ENOMEM, EPERM],
+        n if n == sc::nr::MMAP => &[ENOMEM, EAGAIN],
+        n if n == sc::nr::WAIT4 => &[EINTR, ECHILD],
+        n if n == sc::nr::FCNTL => &[EINVAL],
+        n if n == sc::nr::GETSOCKNAME => &[ENOBUFS],
+        n if n == sc::nr::DUP3 || n == sc::nr::DUP2 => &[EMFILE, EINTR],
+        n if n == sc::nr::UNAME => &[EFAULT],
+        _ => &[],
+    }
+}
+
+fn never_fault(nr: usize) -> bool {
+    // forcing these to "fail" without executing would manufacture a leak / is not a failure mode
+    nr == sc::nr::CLOSE || nr == sc::nr::MUNMAP || nr == sc::nr::EXIT || nr == sc::nr::EXIT_GROUP
+}
+
+pub struct RunResult {
+    pub log: Vec<sc::verif::Call>,
+    pub sig_err: Option<Failure>,
+}
+
+/// Run one (scenario, fault) pair and judge it.
+pub fn run_case(env: &Env, name: &str, op: Op, fault: Option<(u32, i32)>, child_fault: &Option<(String, u32, i32)>, rep: &mut CaseReport) -> Result<Vec<sc::verif::Call>, Failure> {
+    reset_files(env);
+    let before = snapshot();
+    let mut rules = Vec::new();
+    if let Some((j, e)) = fault {
+        rules.push(Rule { nr: None, nth: Some(j as usize), action: Action::ForceRet(sc::verif::neg_errno(e)), times: 1 });
+    }
+    if let Some((sys, nth, e)) = child_fault {
+        let nr = match sys.as_str() {
+            "dup3" => sc::nr::DUP3,
+            "execve" => sc::nr::EXECVE,
+            "chdir" => sc::nr::CHDIR,
+            _ => sc::nr::EXECVE,
+        };
+        rules.push(Rule { nr: Some(nr), nth: Some(*nth as usize), action: Action::ForceRet(sc::verif::neg_errno(*e)), times: 1 });
+    }
+    sc::verif::install();
+    sc::verif::plan(rules);
+    sc::verif::log_begin();
+    let parent = unsafe { libc::getpid() };
+    let held = catch(|| op(env));
+    if unsafe { libc::getpid() } != parent {
+        unsafe { libc::_exit(0) };
+    }
+    let log = sc::verif::log_end();
+    sc::verif::clear_plan();
+    let held = held.map_err(|(loc, msg)| Failure::new(format!("{name}|panic|{loc}"), format!("{name} panicked at {loc}: {msg}")))?;
+
+    let after = snapshot();
+    let new_fds: Vec<i32> = after.keys().filter(|k| !before.contains_key(k)).copied().collect();
+    let gone: Vec<i32> = before.keys().filter(|k| !after.contains_key(k)).copied().collect();
+    ensure!(gone.is_empty(), format!("{name}|closed a descriptor it does not own"), "{name} (fault {fault:?}): descriptors open before the call are gone afterwards: {}", describe(&before, &gone));
+    for (fd, info) in &before {
+        if after.get(fd) != Some(info) {
+            fail!(format!("{name}|stole a descriptor number"), "{name} (fault {fault:?}): descriptor {fd} now refers to {:?}, before the call {:?}", after.get(fd).map(|i| String::from_utf8_lossy(&i.link).to_string()), String::from_utf8_lossy(&info.link));
+        }
+    }
+    // owned: -1 stands for "exactly one descriptor that is not exposed by the API"
+    let mut owned: Vec<i32> = held.owned.iter().copied().filter(|&f| f >= 0).collect();
+    let anonymous = held.owned.iter().filter(|&&f| f < 0).count();
+    owned.sort_unstable();
+    owned.dedup();
+    let mut unexpected: Vec<i32> = new_fds.iter().copied().filter(|f| !owned.contains(f)).collect();
+    for _ in 0..anonymous {
+        if !unexpected.is_empty() {
+            unexpected.remove(0);
+        }
+    }
+    let step = fault.map(|(j, e)| format!("syscall #{j} ({}) failing with errno {e}", log.get(j as usize).map(|c| c.nr.to_string()).unwrap_or_default())).unwrap_or_else(|| "no fault".into());
+    ensure!(unexpected.is_empty(), format!("{name}|leaked a descriptor"), "{name} ({step}): still open after the call and not owned by the returned value: {}", describe(&after, &unexpected));
+    let missing: Vec<i32> = owned.iter().copied().filter(|f| !after.contains_key(f)).collect();
+    ensure!(missing.is_empty(), format!("{name}|returned a closed descriptor"), "{name} ({step}): the returned value claims descriptors {missing:?} which are not open");
+
+    // log-based: closes must target descriptors this operation created and still holds
+    let mut created: Vec<i32> = Vec::new();
+    let mut closed: Vec<i32> = Vec::new();
+    for c in &log {
+        if c.nr == sc::nr::CLOSE && c.executed {
+            let fd = c.args[0] as i32;
+            let ebadf = c.ret == sc::verif::neg_errno(libc::EBADF);
+            ensure!(!ebadf, format!("{name}|double close"), "{name} ({step}): close({fd}) returned EBADF (already closed)");
+            if before.contains_key(&fd) {
+                fail!(format!("{name}|closed a descriptor it does not own"), "{name} ({step}): close({fd}) on a descriptor that was open before the call ({})", describe(&before, &[fd]));
+            }
+            closed.push(fd);
+        }
+    }
+    let _ = &mut created;
+    // now drop the value: table must be back to `before`
+    for fd in &held.close_raw {
+        unsafe { libc::close(*fd) };
+    }
+    let log_len = log.len();
+    sc::verif::log_begin();
+    drop(held);
+    let drop_log = sc::verif::log_end();
+    for c in &drop_log {
+        if c.nr == sc::nr::CLOSE && c.executed {
+            let fd = c.args[0] as i32;
+            ensure!(c.ret != sc::verif::neg_errno(libc::EBADF), format!("{name}|double close on drop"), "{name} ({step}): dropping the returned value closed {fd} which was already closed");
+            ensure!(!before.contains_key(&fd), format!("{name}|drop closed a descriptor it does not own"), "{name} ({step}): drop closed {fd}");
+        }
+        if c.nr == sc::nr::MUNMAP && c.executed && c.ret != 0 {
+            fail!(format!("{name}|munmap failed on drop"), "{name} ({step}): munmap({:#x},{}) on drop returned {}", c.args[0], c.args[1], c.ret as isize);
+        }
+    }
+    let end = snapshot();
+    let left: Vec<i32> = end.keys().filter(|k| !before.contains_key(k)).copied().collect();
+    ensure!(left.is_empty(), format!("{name}|leaked a descriptor after drop"), "{name} ({step}): after dropping the returned value still open: {}", describe(&end, &left));
+    ensure!(end == before, format!("{name}|descriptor table changed"), "{name} ({step}): descriptor table after drop differs from before");
+    rep.class_if(!new_fds.is_empty(), "returned-descriptors");
+    rep.class_if(!closed.is_empty(), "closed-on-the-way");
+    let _ = log_len;
+    Ok(log)
+}
+
+pub fn check_case(env: &Env, c: &FdCase) -> CaseResult {
+    let mut rep = CaseReport::new();
+    let scn = scenarios();
+    let Some((name, op)) = scn.iter().find(|(n, _)| *n == c.scenario) else {
+        return Err(Failure::new("harness|unknown scenario", c.scenario.clone()));
+    };
+    run_case(env, name, *op, c.fault, &c.child_fault, &mut rep)?;
+    reap();
+    rep.nontrivial_if(c.fault.map(|(j, _)| j >= 1).unwrap_or(false) || c.child_fault.is_some());
+    rep.class_if(c.fault.is_none() && c.child_fault.is_none(), "no-fault");
+    rep.class_if(c.fault.is_some(), "parent-fault");
+    rep.class_if(c.child_fault.is_some(), "child-fault");
+    Ok(rep)
+}
+
+fn reap() {
+    loop {
+        let mut st = 0;
+        let r = unsafe { libc::waitpid(-1, &mut st, libc::WNOHANG) };
+        if r <= 0 {
+            break;
+        }
+    }
+}
+
+pub fn run(ctx: &Ctx) {
+    let env = make_env(ctx);
+    if ctx.is_replay() {
+        if let Some(c) = ctx.replay_case::<FdCase>("fd-table") {
+            ctx.run_one("fd-table", &c, || check_case(&env, &c));
+        }
+        let _ = std::fs::remove_dir_all(&env.root);
+        return;
+    }
+    let scn = scenarios();
+    let all_errnos = ctx.thorough();
+    let mut complete = true;
+    let mut total = 0u64;
+    for (i, (name, op)) in scn.iter().enumerate() {
+        if i % ctx.nworkers as usize != ctx.worker as usize {
+            continue;
+        }
+        // dry run: the syscall sequence of the fault-free operation
+        let base = FdCase { scenario: name.to_string(), fault: None, child_fault: None };
+        let mut dry_log = Vec::new();
+        let ok = ctx.run_one("fd-table", &base, || {
+            let mut rep = CaseReport::new();
+            dry_log = run_case(&env, name, *op, None, &None, &mut rep)?;
+            reap();
+            rep.class("no-fault");
+            Ok(rep)
+        });
+        total += 1;
+        let mut seen_sigs = !ok;
+        // every index of the sequence, each plausible errno (quick: the first one)
+        for (j, call) in dry_log.iter().enumerate() {
+            if never_fault(call.nr) {
+                continue;
+            }
+            let errs = plausible_errnos(call.nr);
+            let errs: &[i32] = if all_errnos { errs } else { &errs[..errs.len().min(2)] };
+            for &e in errs {
+                let case = FdCase { scenario: name.to_string(), fault: Some((j as u32, e)), child_fault: None };
+                let ok = ctx.run_one("fd-table", &case, || check_case(&env, &case));
+                total += 1;
+                if !ok {
+                    seen_sigs = true;
+                }
+            }
+        }
+        if name.starts_with("Command::spawn") {
+            for (sys, n) in [("dup3", 3u32), ("execve", 1), ("chdir", 1)] {
+                for nth in 0..n {
+                    for &e in &[libc::EMFILE, libc::EACCES][..if all_errnos { 2 } else { 1 }] {
+                        let case = FdCase { scenario: name.to_string(), fault: None, child_fault: Some((sys.to_string(), nth, e)) };
+                        let ok = ctx.run_one("fd-table", &case, || check_case(&env, &case));
+                        total += 1;
+                        if !ok {
+                            seen_sigs = true;
+                        }
+                    }
+                }
+            }
+        }
+        if seen_sigs {
+            complete = false;
+        }
+    }
+    if complete {
+        ctx.note_exhaustive(format!("fd-table: every scenario of this worker's share ({} scenarios in total) x every index of its syscall sequence x {} plausible errno(s) per call; {} cases on this worker", scn.len(), if all_errnos { "all" } else { "the first two" }, total));
+    }
+    unsafe { libc::close(env.unix_listener_fd) };
+    let _ = std::fs::remove_dir_all(&env.root);
+}
